@@ -61,7 +61,8 @@ CFG = {
                      "= effort (uniform-efficiency teams), no further slot, team members booked for the same instants, one candidate set"),
     "C04": dict(files=["Properties/C04.lean"], oracles=("C04",),
                 knobs=[(2, Knobs(envelope="asap", p_dep=0.85, p_gap=0.6, p_onstart=0.25, p_container=0.5, p_prec=0.25, p_pin=0.25, aligned_only=False)),
-                       (1, Knobs(envelope="alap", p_dep=0.85, p_gap=0.6, p_container=0.5, p_prec=0.25))],
+                       (1, Knobs(envelope="alap", p_dep=0.85, p_gap=0.6, p_container=0.5, p_prec=0.25)),
+                       (1, Knobs(envelope="alap", max_tasks=6, p_twin=0.7, p_container=0.85, p_dep=0.85, p_gap=0.5, dur_weeks=[3, 4]))],
                 nontrivial=lambda p, r: any(t.get("deps") or t.get("prec") for _, t, _, _ in A.flat_tasks(p)),
                 rule="ASAP and ALAP envelope projects with dense DAGs over nested trees, gaps (incl. days, sub-slot), on-start edges, "
                      "relative/absolute references, precedes, dated containers; oracle: start >= predecessor (start|end) + gap for own, "
@@ -81,7 +82,10 @@ CFG = {
                      "slot contain start/end, interval long enough for the work of those slots, milestones at their bound"),
     "C08": dict(files=["Properties/C08.lean"], oracles=("C08",),
                 knobs=[(2, Knobs(envelope="asap", p_limits=0.05, p_tasklimits=0.0, p_wh=0.5, p_leave=0.5, p_tz=0.3)),
-                       (1, Knobs(envelope="alap", p_limits=0.05, p_tasklimits=0.0, p_wh=0.5, p_leave=0.5))],
+                       (1, Knobs(envelope="alap", p_limits=0.05, p_tasklimits=0.0, p_wh=0.5, p_leave=0.5)),
+                       # sparse backward projects with nested containers and equal local ids: wrong deadlines show as idle time
+                       (1, Knobs(envelope="alap", max_res=2, max_tasks=6, p_twin=0.7, p_container=0.85, p_dep=0.8, p_gap=0.3,
+                                 p_limits=0.0, p_tasklimits=0.0, big_effort=0.0, dur_weeks=[3, 4]))],
                 nontrivial=any_booking,
                 rule="ASAP and ALAP envelope projects, mostly unlimited resources, calendars with leaves/zones/cross-midnight shifts; oracle: "
                      "no working, unbooked slot of the task's resource between bound and end (ASAP) / end and deadline (ALAP)"),
